@@ -76,6 +76,18 @@ class SymWorld(S.World):
     def index_map(self, name, new_sort, src_sort=None, n_src=1):
         return S.index_map(name, new_sort, n_src)
 
+    def Phi(self, x):
+        return S._unary("Phi")(x)
+
+    def phi(self, x):
+        return S._unary("phi")(x)
+
+    def step(self, x):
+        return S._indicator(x, 0.0)
+
+    def inf(self):
+        return S.inf
+
     def random_key(self, name="key"):
         class _Key:
             pass
@@ -426,6 +438,20 @@ class NumWorld:
         eye = np.eye(Dn)
         return dict(S=self.xp.asarray(s[..., None] * eye), L=self.xp.asarray((1.0 / s)[..., None] * eye),
                     ld=self.xp.asarray(np.sum(np.log(s), axis=-1)), s=self.xp.asarray(s))
+
+    def Phi(self, x):
+        from jax.scipy.stats import norm
+        return norm.cdf(x)
+
+    def phi(self, x):
+        from jax.scipy.stats import norm
+        return norm.pdf(x)
+
+    def step(self, x):
+        return (self.xp.asarray(x) >= 0) * 1.0
+
+    def inf(self):
+        return self.xp.inf
 
     def random_key(self, name="key"):
         import jax
